@@ -6,7 +6,19 @@ W=$(mktemp -d /tmp/verif-demo.XXXXXX); trap 'rm -rf "$W"' EXIT
 rsync -a --exclude target --exclude .git "$SRC"/ "$W"/
 cp "$DEMO" "$W/src/verif_demo.rs"
 HOST=$(sed -n 's,^//@host ,,p' "$DEMO" | head -1); HOST=${HOST:-src/lib.rs}
-printf '\n#[cfg(test)]\n#[path = "%s/src/verif_demo.rs"]\nmod verif_demo;\n' "$W" >> "$W/$HOST"
+INSIDE=$(sed -n 's,^//@inside ,,p' "$DEMO" | head -1)
+if [ -n "$INSIDE" ]; then
+  python3 - "$W/$HOST" "$INSIDE" "$W" <<'P'
+import sys, re
+f, key, w = sys.argv[1:4]
+t = open(f).read()
+at = [m.end() for m in re.finditer(r'^[^\n]*' + re.escape(key.strip()) + r'[^\n]*\n', t, re.M)]
+assert len(at) == 1, 'lost anchor %r' % key
+open(f, 'w').write(t[:at[0]] + '\n#[cfg(test)]\n#[path = "%s/src/verif_demo.rs"]\nmod verif_demo;\n' % w + t[at[0]:])
+P
+else
+  printf '\n#[cfg(test)]\n#[path = "%s/src/verif_demo.rs"]\nmod verif_demo;\n' "$W" >> "$W/$HOST"
+fi
 python3 - "$W" "${TMO:-300}" <<'P' | grep -a -E "^error|stdout ----|test result|panicked|TIMEOUT" -A7 | cut -c1-700 | head -${LINES_:-40}
 import subprocess, os, signal, sys
 w, tmo = sys.argv[1], int(sys.argv[2])
